@@ -185,3 +185,49 @@ Example y_delete_clean :
   exists w', w_delete nat (sget nat ys2 0) 4 (WRef v1) [] kd = Some (false, w') /\
              w_resolve_ref nat (sget nat ys2 0) [] v1 = Some w' /\ dirty_paths nat [] w' = [].
 Proof. eexists. split; [vm_compute; reflexivity|split; vm_compute; reflexivity]. Qed.
+
+(* the same two blocks as a history with the root-node cache: block 0 from the empty trie leaves its tree, block 1 starts
+   from it; then a commit of another trie (name 7), which leaves the kept tree in place, and block 2 from the kept tree *)
+Definition ykw1 : wnode nat := Eval vm_compute in match ykept0 with Some (w, _) => w | None => WNil end.
+Definition ykw2 : wnode nat := Eval vm_compute in match ykept1 with Some (w, _) => w | None => WNil end.
+Definition ys2' : store nat := commit nat ys2 7 (9, 9)%N [([], SShort [16%nat] (SValue 1%nat))].
+Definition ykept2 := block_from nat Nat.eqb ys2' 0 ykw2 v2 bigT false yops2.
+Definition ykw3 : wnode nat := Eval vm_compute in match ykept2 with Some (w, _) => w | None => WNil end.
+Definition ys3' : store nat := Eval vm_compute in match ykept2 with Some (_, s) => s | None => ys2' end.
+
+Lemma yC2 : OpsHistoryC nat Nat.eqb 0 ys2 yc2 0 (Some ykw2).
+Proof.
+  apply (OC_block nat Nat.eqb 0 ys1 yc1 0%N (Some ykw1) v1 bigF false yops1 ykw1 ykw2 ys2).
+  - apply (OC_block nat Nat.eqb 0 ys0 yc0 0%N None v0 bigT false yops0 WNil ykw1 ys1).
+    + apply OC_init. reflexivity.
+    + left. reflexivity.
+    + intros p. reflexivity.
+    + cbn; lia.
+    + exact I.
+    + valid_tac.
+    + vm_compute. discriminate.
+    + vm_compute. reflexivity.
+  - right. reflexivity.
+  - fresh_tac.
+  - cbn; lia.
+  - cbn; lia.
+  - valid_tac.
+  - vm_compute. discriminate.
+  - vm_compute. reflexivity.
+Qed.
+
+Lemma yC3 : OpsHistoryC nat Nat.eqb 0 ys3' yc3 0 (Some ykw3).
+Proof.
+  apply (OC_block nat Nat.eqb 0 ys2' yc2 0%N (Some ykw2) v2 bigT false yops2 ykw2 ykw3 ys3').
+  - apply OC_other; [exact yC2|left; discriminate].
+  - right. reflexivity.
+  - fresh_tac.
+  - cbn; lia.
+  - cbn; lia.
+  - valid_tac.
+  - vm_compute. discriminate.
+  - vm_compute. reflexivity.
+Qed.
+
+Example y_cache_reads : open_root nat 12 ys3' 0 v2 = Some yt2 /\ open_root nat 12 ys3' 0 v1 = Some yt1 /\ ykw2 <> WRef v1.
+Proof. repeat split; try (vm_compute; reflexivity). discriminate. Qed.
